@@ -27,6 +27,7 @@ pub struct Scenario {
     pub scripts: Vec<Vec<Op>>,
     pub cache: usize,
     pub workers: u32,
+    pub nodes: usize,
 }
 
 fn gen_script(rng: &mut Rng, n: u32, len: usize, nbase: usize, quant: bool) -> Vec<Op> {
@@ -59,7 +60,7 @@ pub fn gen_scenario(rng: &mut Rng, threads: usize, len: usize, quant: bool, n: u
     let nbase = 3;
     let base: Vec<Tt> = (0..nbase).map(|_| Tt::random_biased(n, rng)).collect();
     let scripts = (0..threads).map(|_| gen_script(rng, n, len, nbase, quant)).collect();
-    Scenario { n, base, scripts, cache: 1 << rng.range(0, 8), workers: 1 }
+    Scenario { n, base, scripts, cache: 1 << rng.range(0, 8), workers: 1, nodes: 1 << 14 }
 }
 
 /// Run the scenario once. `strategy`: None = free running. Returns the scheduler outcome.
@@ -70,7 +71,7 @@ where
     K::F: Send + Sync,
     MRefOf<K>: Send + Sync,
 {
-    let nodes = 1 << 14;
+    let nodes = sc.nodes;
     let mut main = World::<K>::new(nodes, sc.cache, sc.workers, sc.n, label.to_string());
     for t in &sc.base {
         let f = build_shannon::<K>(&main.mref, t);
@@ -273,6 +274,7 @@ where
         let mut sc = gen_scenario(rng, threads, len, K::HAS_QUANT, n);
         sc.workers = *rng.pick(&[1u32, 2, 4, 8]);
         sc.cache = 1 << rng.range(2, 14);
+        sc.nodes = if big { 1 << 21 } else { 1 << 16 };
         let label = format!("c07stress kind={} round={r} n={n} workers={} seed={} shard={}", K::NAME, sc.workers, ctx.seed, ctx.shard);
         println!("@@{{\"t\":\"case\",\"case\":{}}}", crate::ctx::json_str(&label));
         sched::delay::install(rng.next(), *rng.pick(&[4u64, 16, 64, 256]));
@@ -311,16 +313,22 @@ pub fn tiny(ctx: &mut Ctx) {
             0 => {
                 let mut sc = gen_scenario(&mut rng, 2, len, true, 3);
                 sc.workers = 2;
+                sc.nodes = if cfg!(miri) { 96 } else { 1 << 12 };
+                sc.cache = 16;
                 run_scenario::<Bdd>(ctx, &sc, None, &label);
             }
             1 => {
                 let mut sc = gen_scenario(&mut rng, 2, len, true, 3);
                 sc.workers = 2;
+                sc.nodes = if cfg!(miri) { 96 } else { 1 << 12 };
+                sc.cache = 16;
                 run_scenario::<Bcdd>(ctx, &sc, None, &label);
             }
             _ => {
                 let mut sc = gen_scenario(&mut rng, 2, len, false, 3);
                 sc.workers = 2;
+                sc.nodes = if cfg!(miri) { 96 } else { 1 << 12 };
+                sc.cache = 16;
                 run_scenario::<Zbdd>(ctx, &sc, None, &label);
             }
         }
